@@ -41,6 +41,28 @@ def loader():
     return LOADER
 
 
+def build():
+    """the fixture model + a second constant specification that defines PI again (and TAU)"""
+    m = loader().build_metamodel(xtuml.IntegerGenerator())
+    csp = m.select_one('CNST_CSP', lambda x: x.InformalGroupName == 'My_Constants')
+    syc = one(csp).CNST_SYC[1504](lambda x: x.Name == 'PI')
+    pkg = one(csp).PE_PE[8001].EP_PKG[8000]()
+    pe = m.new('PE_PE', Visibility=1, type=10)
+    csp2 = m.new('CNST_CSP', InformalGroupName='Other_Constants')
+    xtuml.relate(csp2, pe, 8001)
+    if pkg is not None:
+        xtuml.relate(pe, pkg, 8000)
+    for nm, val in (('PI', '6.28'), ('TAU', '6.28')):
+        syc2 = m.new('CNST_SYC', Name=nm)
+        lfsc = m.new('CNST_LFSC')
+        lsc = m.new('CNST_LSC', Value=val)
+        xtuml.relate(syc2, one(syc).S_DT[1500](), 1500)
+        xtuml.relate(syc2, csp2, 1504)
+        xtuml.relate(syc2, lfsc, 1502)
+        xtuml.relate(lsc, lfsc, 1503)
+    return m
+
+
 def carrier(m, home):
     if home == 'function':
         return m.select_one('S_SYNC', lambda s: s.Name == 'Function')
@@ -143,7 +165,7 @@ def first_diff(a, b, path='root'):
 
 def get_case(ci):
     c = CASES[ci]
-    m = loader().build_metamodel(xtuml.IntegerGenerator())
+    m = build()
     if c[0] == 'real':
         _, kind, n, text = c
         inst = list(m.select_many(kind))[n]
@@ -183,7 +205,7 @@ def check_roundtrip(ci: int) -> bool:
                 return None
             LAST_DIFF = ('syntax tree differs after prebuild + text generation', name, d, gen); return False
         # translating the generated text again (fresh model) yields the same generated text
-        m2 = loader().build_metamodel(xtuml.IntegerGenerator())
+        m2 = build()
         inst2 = [i for i in m2.select_many(xtuml.get_metaclass(inst).kind)][list(m.select_many(xtuml.get_metaclass(inst).kind)).index(inst)]
         inst2.Action_Semantics_internal = gen
     prebuild.prebuild_action(inst2)
@@ -212,6 +234,41 @@ def subtypes_of(inst, rel):
         if r == rel and link.to_metaclass is not mc:
             out.extend(link.navigate(inst))
     return out
+
+
+def declared_classes(text):
+    """{variable: ('inst' | 'set', key letters)} read off the source text: the class an instance variable
+    refers to is fixed by the statement that first declares it (select / create / for each / copy)"""
+    import re
+    out = {}
+    bad = set()
+
+    def put(v, kind, kl):
+        if v in out and out[v] != (kind, kl):
+            bad.add(v)
+        out.setdefault(v, (kind, kl))
+    for stmt in re.split(r';|\n', text):
+        st = stmt.strip()
+        mt = re.match(r'(?i)select\s+(one|any|many)\s+(\w+)\s+related\s+by\s+(.*)$', st)
+        if mt:
+            chain = re.split(r'(?i)\swhere\b', mt.group(3))[0]
+            steps = re.findall(r'->\s*(\w+)\s*\[', chain)
+            if steps:
+                put(mt.group(2), 'set' if mt.group(1).lower() == 'many' else 'inst', steps[-1])
+            continue
+        mt = re.match(r'(?i)select\s+(any|many)\s+(\w+)\s+from\s+(?:instances\s+of\s+)?(\w+)', st)
+        if mt:
+            put(mt.group(2), 'set' if mt.group(1).lower() == 'many' else 'inst', mt.group(3)); continue
+        mt = re.match(r'(?i)create\s+object\s+instance\s+(\w+)\s+of\s+(\w+)$', st)
+        if mt:
+            put(mt.group(1), 'inst', mt.group(2)); continue
+        mt = re.match(r'(?i)for\s+each\s+(\w+)\s+in\s+(\w+)', st)
+        if mt and out.get(mt.group(2), ('', ''))[0] == 'set':
+            put(mt.group(1), 'inst', out[mt.group(2)][1]); continue
+        mt = re.match(r'(?i)(?:assign\s+)?(\w+)\s*=\s*(\w+)$', st)
+        if mt and mt.group(2) in out and mt.group(1) not in out:
+            put(mt.group(1), out[mt.group(2)][0], out[mt.group(2)][1])
+    return {k: v for k, v in out.items() if k not in bad and k.lower() != 'self'}
 
 
 def check_population(m, before_ids, text, name):
@@ -255,6 +312,43 @@ def check_population(m, before_ids, text, name):
             return ('statement position is not the first column of its text', ln, col, src)
         if src[:col - 1].strip() == '' and col - 1 != len(src) - len(src.lstrip()):
             return ('statement position is not the first column of its text', ln, col, src)
+    # the parameters of ONE invocation form exactly one R816 chain, in source order
+    owners = {}
+    for par in new('V_PAR'):
+        own = None
+        for kind, rel in (('V_BRV', 810), ('V_TRV', 811), ('V_FNV', 817), ('V_MSV', 842), ('ACT_TFM', 627), ('ACT_BRG', 628),
+                          ('ACT_FNC', 669), ('ACT_IOP', 679), ('ACT_SGN', 662), ('E_ESS', 700)):
+            own = getattr(one(par), kind)[rel]()
+            if own is not None:
+                break
+        if own is None:
+            return ('parameter belongs to no invocation', par.Name)
+        owners.setdefault(id(own), []).append(par)
+    for pars in owners.values():
+        posn = lambda q: (one(q).V_VAL[800]().LineNumber, one(q).V_VAL[800]().StartPosition)
+        order = sorted(pars, key=posn)
+        for x, y in zip(order, order[1:]):
+            if one(x).V_PAR[816, 'precedes']() is not y or one(y).V_PAR[816, 'succeeds']() is not x:
+                return ('next parameter (R816) of %s is not %s, the next parameter of the same invocation' % (x.Name, y.Name), posn(x))
+        if one(order[-1]).V_PAR[816, 'precedes']() is not None:
+            return ('last parameter %s of an invocation has a next parameter' % order[-1].Name, posn(order[-1]))
+        if one(order[0]).V_PAR[816, 'succeeds']() is not None:
+            return ('first parameter %s of an invocation has a previous parameter' % order[0].Name, posn(order[0]))
+    # instance variables refer to the class their declaring statement selects / creates
+    exp_vars = declared_classes(text)
+    for var in new('V_VAR'):
+        if var.Name not in exp_vars:
+            continue
+        kind, kl = exp_vars[var.Name]
+        o_obj = one(var).V_INT[814].O_OBJ[818]() if kind == 'inst' else one(var).V_INS[814].O_OBJ[819]()
+        if o_obj is None:
+            return ('variable %s is not an instance %s' % (var.Name, 'handle' if kind == 'inst' else 'set'),)
+        if o_obj.Key_Lett != kl:
+            return ('variable %s refers to class %s, declared by its statement as %s' % (var.Name, o_obj.Key_Lett, kl),)
+        dt = one(var).S_DT[848]()
+        want = 'inst_ref<Object>' if kind == 'inst' else 'inst_ref_set<Object>'
+        if dt is None or (dt.Name != want and not (one(dt).S_IRDT[17]() and one(dt).S_IRDT[17].O_OBJ[123]() is o_obj)):
+            return ('variable %s typed %s' % (var.Name, getattr(dt, 'Name', None)),)
     # parameter chains: R816 order = source order (by position of the value)
     for par in new('V_PAR'):
         nxt = one(par).V_PAR[816, 'precedes']()
